@@ -56,15 +56,18 @@ type c19Cfg struct {
 	windows  int
 
 	writer, reader, setter, injector bool
-	closeTimes                       []time.Duration // closer thread: Close after one of these (free choice); nil = no closer
-	failChoice                       bool            // every listen after the first may fail (environment choice)
-	failFirst                        bool            // the constructor's listen may fail too
+	// poller: after the first hop the caller lets a read deadline expire and then clears it (what
+	// quic-go does to wake its read loop); the reader keeps reading afterwards
+	poller     bool
+	closeTimes []time.Duration // closer thread: Close after one of these (free choice); nil = no closer
+	failChoice bool            // every listen after the first may fail (environment choice)
+	failFirst  bool            // the constructor's listen may fail too
 	// transportClose: main ends with the shutdown sequence of quic-go's Transport.Close on a conn it
 	// does not own followed by hysteria's client Close: SetReadDeadline(now), wait until the reader
 	// has seen the timeout and stopped, SetReadDeadline(zero), Close.
-	transportClose bool
-	portKind, jitterKind             vsched.ChoiceKind
-	quick, thorough                  explore.Bounds
+	transportClose       bool
+	portKind, jitterKind vsched.ChoiceKind
+	quick, thorough      explore.Bounds
 }
 
 type c19Inj struct {
@@ -86,6 +89,7 @@ type c19World struct {
 	closeCalled   bool // some thread has entered the first Close
 	closeReturned bool // a Close call has returned
 	tclosing      bool // transportClose sequence started: the reader stops at the next timeout
+	polls         int  // read deadlines the poller let expire so far
 	sent          map[string]int
 	injected      []c19Inj
 	injectedSet   map[string]bool
@@ -225,6 +229,10 @@ func (w *c19World) drain(who string) {
 		if err != nil {
 			if errors.Is(err, net.ErrClosed) && w.closeCalled {
 				return
+			}
+			var ne net.Error
+			if errors.As(err, &ne) && ne.Timeout() && w.polls > 0 {
+				continue // a queued read-deadline expiry (poller scenario)
 			}
 			w.e.Fail("ReadFrom with %d queued packets failed: %v", vchan.Len(w.conn.recvQueue)+1, err)
 			return
@@ -409,6 +417,12 @@ func c19Body(cfg *c19Cfg) func(e *vsched.Exec) {
 							e.Logf("reader: timeout, stops")
 							return
 						}
+						if errors.As(err, &ne) && ne.Timeout() && w.polls > 0 {
+							e.Logf("reader: read deadline expired, reads on")
+							i--
+							e.Sleep(int64(2 * time.Millisecond)) // (the caller clears the deadline before it reads again)
+							continue
+						}
 						e.Fail("ReadFrom failed: %v", err)
 						return
 					}
@@ -435,6 +449,31 @@ func c19Body(cfg *c19Cfg) func(e *vsched.Exec) {
 					e.Fail("LocalAddr returned nil")
 				}
 				_, _ = w.conn.SyscallConn()
+			})
+		}
+		if cfg.poller {
+			spawn("poller", func() {
+				e.Sleep(int64(cfg.window) / 2)
+				for k := 0; k < 2; k++ {
+					e.Sleep(int64(cfg.window))
+					if w.closeCalled {
+						return
+					}
+					w.polls++
+					// one read-deadline expiry seen by each open socket (as when the caller sets a
+					// deadline that passes and then clears it); injected as a one-shot timeout on the
+					// sockets so that the receive loops do not spin on a deadline left in the past
+					if n := len(w.socks); n >= 2 && !w.socks[n-2].Closed() {
+						w.socks[n-2].FailNextRead(vnet.ErrTimeout)
+					}
+					if n := len(w.socks); n >= 1 && !w.socks[n-1].Closed() {
+						w.socks[n-1].FailNextRead(vnet.ErrTimeout)
+					}
+					e.Sleep(int64(time.Millisecond))
+					// a packet that arrives on the previous socket after the expired deadline was cleared
+					w.inject("ipoll", len(w.socks)-2)
+					w.inject("ipollcur", len(w.socks)-1)
+				}
 			})
 		}
 		if cfg.injector {
@@ -522,6 +561,13 @@ func c19Scenarios() []*explore.Scenario {
 			setter: true, reader: true, injector: true, failChoice: true,
 			portKind: vsched.KEnv, jitterKind: vsched.KEnv,
 			quick: q, thorough: explore.Bounds{P: 3, E: 2, MaxExec: 600000}},
+		// a read deadline expires after a hop and is cleared again (the caller's read loop being woken):
+		// packets arriving on the previous socket afterwards are still delivered until the next hop
+		// (added after the seeded change C19-4: the previous socket's receive loop ended on a timeout)
+		{name: "hop-poll-fixed-2ports", portExpr: "20000,20002", iv: fixed, window: 5500 * time.Millisecond, windows: 3,
+			reader: true, poller: true,
+			portKind: vsched.KEnv, jitterKind: vsched.KEnv,
+			quick: explore.Bounds{P: 1, E: 1}, thorough: explore.Bounds{P: 2, E: 2, MaxExec: 600000}},
 		// every sequence of port-index and jitter draws (free choices)
 		{name: "hop-draws-range-3ports", portExpr: "20000,20001,20005", iv: ranged, window: 7500 * time.Millisecond, windows: 2,
 			portKind: vsched.KFree, jitterKind: vsched.KFree,
@@ -561,6 +607,7 @@ func c19Scenarios() []*explore.Scenario {
 //  5. recvLoop is blocked in the channel send, not in ReadFrom: closing its socket does not wake
 //     it, the send has no closeChan arm, nobody reads recvQueue any more -> the goroutine (and
 //     its buffer, and the queue) is never released; one or two per closed client connection.
+//
 // Under the Go scheduler the past-deadline window lasts two goroutine hand-offs; the queue fills
 // only if recvLoop gets ~1000 iterations (0.1-0.3 ms CPU) inside it - plausible under load.
 // Every socket IS closed and reads/writes DO fail, which is all C19 states ("leaks no sockets"),
